@@ -256,6 +256,9 @@ func runC20(c *kit.Ctx) {
 			scens = append(scens, scen{kit.CamScript{Auth: a, User: "cam", Pass: "s3cret", FaultStep: "PLAYING", Fault: "eof", Packets: 150}, r, "success+disconnect/auth=" + a + "/" + r})
 		}
 	}
+	for _, a := range []string{"", "basic", "digest"} {
+		scens = append(scens, scen{kit.CamScript{Auth: a, User: "cam", Pass: "s3cret", FaultStep: "PLAYING", Fault: "eof", Packets: 150}, "flv", "success+disconnect/auth=" + a + "/flv/query"})
+	}
 	for _, st := range steps {
 		for _, f := range faults {
 			if (f == "badsdp" || f == "nofmt-sdp") && st != "DESCRIBE" {
@@ -322,8 +325,17 @@ func c20Run(e *c20env, sh string, n int, sc kit.CamScript, requester, name strin
 		cred = sc.User + ":" + sc.Pass + "@"
 	}
 	routeURL := "rtsp://" + cred + camAddr + "/base"
-	route.Save(&route.Route{Pattern: dir, URL: routeURL})
-	defer route.Del(dir)
+	wantAsked := "DESCRIBE rtsp://" + camAddr + "/base/room/1 "
+	if strings.HasSuffix(name, "/query") {
+		// an exact route whose camera URL carries a query string (rtsp://host/cam/realmonitor?channel=1&subtype=0 style)
+		routeURL = "rtsp://" + cred + camAddr + "/base/room/1?channel=1&subtype=0"
+		wantAsked = "DESCRIBE rtsp://" + camAddr + "/base/room/1?channel=1&subtype=0 "
+		route.Save(&route.Route{Pattern: reqPath, URL: routeURL})
+		defer route.Del(reqPath)
+	} else {
+		route.Save(&route.Route{Pattern: dir, URL: routeURL})
+		defer route.Del(dir)
+	}
 	detail := map[string]interface{}{"scenario": name, "route": dir + " -> " + routeURL, "request_path": reqPath}
 	until := make(chan struct{})
 	var ch chan c20outcome
@@ -402,7 +414,7 @@ func c20Run(e *c20env, sh string, n int, sc kit.CamScript, requester, name strin
 		okURL, okAuth := false, sc.Auth == ""
 		for _, cc := range conns {
 			for _, r := range cc.Requests {
-				if strings.Contains(r, "DESCRIBE rtsp://"+camAddr+"/base/room/1 ") {
+				if strings.Contains(r, wantAsked) {
 					okURL = true
 				}
 				if strings.Contains(r, "auth=ok") {
